@@ -54,9 +54,14 @@ class Table (object):
       cmd = ADD
     if cmd == ADD:
       if fm["flags"] & FF_CHECK_OVERLAP:
+        # "conflicting entries with the same priority": an entry without
+        # wildcards ranks above every priority value (1.0, section 3.4), so it
+        # shares its rank only with other such entries
+        def rank (m, prio):
+          return "exact" if OM.is_exact(m) else prio
         for e in self.entries:
-          if e["priority"] == fm["priority"] and OM.overlaps(fm["match"],
-                                                            e["match"]):
+          if rank(e["match"], e["priority"]) == rank(fm["match"], fm["priority"]) \
+             and OM.overlaps(fm["match"], e["match"]):
             errors.append((ET_FLOW_MOD_FAILED, FMFC_OVERLAP))
             return removed, errors
       rest = [e for e in self.entries
